@@ -318,8 +318,132 @@ def split_tuple_assignments(fn) -> int:
     return n_split
 
 
+def _literal(v):
+    """AST of an immutable constant value, or None."""
+    if isinstance(v, (str, bytes, int, float, bool, type(None))):
+        return ast.Constant(value=v)
+    if isinstance(v, tuple):
+        elts = [_literal(x) for x in v]
+        if all(e is not None for e in elts):
+            return ast.Tuple(elts=elts, ctx=ast.Load())
+    return None
+
+
+def fold_new_constants(prog) -> int:
+    """A module-level or class-level NAME that the rules do not know (not in sa/known_globals.json), that is assigned once and
+    holds an immutable constant, is a literal that somebody gave a name: its uses are replaced by the literal.
+    `_LIST_SUFFIX = "[]"; x.endswith(_LIST_SUFFIX)` and `x.endswith("[]")` are the same program."""
+    import json
+    import os
+
+    with open(os.path.join(os.path.dirname(os.path.abspath(__file__)), "known_globals.json")) as f:
+        known = json.load(f)["names"]
+    total = 0
+    for m in prog.modules.values():
+        kn = set(known.get(m.modname, []))
+        rebound = set()
+        for g in ast.walk(m.tree):
+            if isinstance(g, ast.Global):
+                rebound.update(g.names)
+        cands = {}  # name or (class, name) -> literal AST
+        for st in m.tree.body:
+            scopes = [(None, st)] if isinstance(st, (ast.Assign, ast.AnnAssign)) else ([(st.name, s2) for s2 in st.body if isinstance(s2, (ast.Assign, ast.AnnAssign))] if isinstance(st, ast.ClassDef) else [])
+            for cname, a in scopes:
+                tg = a.targets if isinstance(a, ast.Assign) else [a.target]
+                if len(tg) != 1 or not isinstance(tg[0], ast.Name) or getattr(a, "value", None) is None:
+                    continue
+                nm = tg[0].id
+                key = f"{cname}.{nm}" if cname else nm
+                if key in kn or nm in rebound:
+                    continue
+                try:
+                    v = prog.fold(m, a.value)
+                except Exception:
+                    continue
+                lit = _literal(v)
+                if lit is not None:
+                    cands[(cname, nm)] = (lit, a)
+        if not cands:
+            continue
+        # assigned exactly once in the module (as a name), never as an attribute target
+        for (cname, nm), (lit, a) in list(cands.items()):
+            n_store = sum(1 for x in ast.walk(m.tree) if isinstance(x, ast.Name) and x.id == nm and isinstance(x.ctx, (ast.Store, ast.Del)))
+            a_store = sum(1 for x in ast.walk(m.tree) if isinstance(x, ast.Attribute) and x.attr == nm and isinstance(x.ctx, (ast.Store, ast.Del)))
+            if n_store != 1 or a_store:
+                del cands[(cname, nm)]
+        if not cands:
+            continue
+        mod_names = {nm: lit for (cname, nm), (lit, a) in cands.items() if cname is None}
+        cls_names = {(cname, nm): lit for (cname, nm), (lit, a) in cands.items() if cname is not None}
+
+        def fresh(lit, like):
+            new = copy_ast(lit)
+            for x in ast.walk(new):
+                ast.copy_location(x, like)
+                if hasattr(like, "_module"):
+                    x._module = like._module
+            return new
+
+        class T(ast.NodeTransformer):
+            def __init__(self):
+                self.cls = []
+                self.shadow = []
+
+            def visit_ClassDef(self, node):
+                self.cls.append(node.name)
+                self.generic_visit(node)
+                self.cls.pop()
+                return node
+
+            def _func(self, node):
+                loc = {x.id for x in ast.walk(node) if isinstance(x, ast.Name) and isinstance(x.ctx, (ast.Store, ast.Del))} | {a_.arg for a_ in ast.walk(node) if isinstance(a_, ast.arg)}
+                self.shadow.append(loc)
+                self.generic_visit(node)
+                self.shadow.pop()
+                return node
+
+            visit_FunctionDef = _func
+            visit_AsyncFunctionDef = _func
+            visit_Lambda = _func
+
+            def visit_Name(self, node):
+                nonlocal_total[0] += 0
+                if isinstance(node.ctx, ast.Load) and node.id in mod_names and not any(node.id in sh for sh in self.shadow):
+                    nonlocal_total[0] += 1
+                    return fresh(mod_names[node.id], node)
+                # class-level constant used inside the class body itself
+                if isinstance(node.ctx, ast.Load) and self.cls and (self.cls[-1], node.id) in cls_names and not self.shadow:
+                    nonlocal_total[0] += 1
+                    return fresh(cls_names[(self.cls[-1], node.id)], node)
+                return node
+
+            def visit_Attribute(self, node):
+                self.generic_visit(node)
+                if isinstance(node.ctx, ast.Load) and isinstance(node.value, ast.Name):
+                    owner = node.value.id
+                    for (cname, nm), lit in cls_names.items():
+                        if nm == node.attr and (owner == cname or (owner in ("self", "cls") and self.cls and self.cls[-1] == cname)):
+                            nonlocal_total[0] += 1
+                            return fresh(lit, node)
+                return node
+
+        nonlocal_total = [0]
+        keep = {id(a) for (lit, a) in cands.values()}
+        for i, st in enumerate(list(m.tree.body)):
+            if id(st) in keep:
+                continue
+            m.tree.body[i] = T().visit(st)
+        total += nonlocal_total[0]
+    return total
+
+
 def run(prog) -> int:
     from .inline import relink
+
+    folded = fold_new_constants(prog)
+    for m in prog.modules.values():
+        relink(m)
+        m._symbols = None
 
     total = 0
     for m in prog.modules.values():
